@@ -58,11 +58,22 @@ Value& HASHExpression::value(Context & ctx) const
       break;
     case Type::INTEGER:
       if (!a1.isNull())
-        max_size = (uint32_t)*a1.integer();
+      {
+        /* the modulus must be a positive 32 bits value (zero would divide by zero) */
+        Integer m = *a1.integer();
+        if (m < 1 || m > Integer(UINT32_MAX))
+          throw RuntimeError(EXC_RT_OUT_OF_RANGE);
+        max_size = (uint32_t)m;
+      }
       break;
     case Type::NUMERIC:
       if (!a1.isNull())
-        max_size = (uint32_t)*a1.numeric();
+      {
+        Numeric d = *a1.numeric();
+        if (!(d >= 1.0 && d <= Numeric(UINT32_MAX)))
+          throw RuntimeError(EXC_RT_OUT_OF_RANGE);
+        max_size = (uint32_t)d;
+      }
       break;
     default:
       throw RuntimeError(EXC_RT_FUNC_ARG_TYPE_S, KEYWORDS[oper]);
